@@ -133,6 +133,28 @@ def judge(ctx, c, answers):
         elif la != r1:
             ctx.violation('correspondence:eps_closure', {'case': sub, 'impl': r1, 'model': la}, no_input=True)
         ctx.count('closure:size>1' if len(exp['ok']) > len(S) else 'closure:trivial')
+    # history: the same object, edited in place (still a valid NFA), must be judged by its CURRENT content
+    if c['N']['Q'] and c['words']:
+        q = c['N']['Q'][0]
+        spec2 = dict(c['N'], F=[y for y in c['N']['F'] if y != q] if q in c['N']['F'] else c['N']['F'] + [q])
+        N2 = enc.build_nfa(c['N'])
+        for w in c['words'][:3]:
+            call(nfa_accepts_word, N2, w)
+        if q in N2.F:
+            N2.F.discard(q)
+        else:
+            N2.F.add(q)
+        if c['N']['Sigma']:
+            a0 = c['N']['Sigma'][0]
+            N2.delta[(q, a0)] = set(N2.delta.get((q, a0), set())) | {q}
+            spec2['delta'] = [e for e in spec2['delta'] if not (e[0] == q and e[1] == a0)] + [[q, a0, sorted(set(N2.delta[(q, a0)]))]]
+        Nf = enc.build_nfa(spec2)
+        for w in c['words'][:6]:
+            if all(x in N.Sigma for x in w):
+                r = norm(call(nfa_accepts_word, N2, w))
+                exp = {'ok': oracles.nfa_accepts(Nf, w)}
+                if r != exp:
+                    ctx.violation('nfa-acceptance-after-edit', {'case': dict(c, words=[w], sets=[]), 'edited': spec2, 'impl': r, 'expected': exp})
     after = (enc.canon_nfa(N, drop_empty=False), str(N))
     if after != before:
         ctx.violation('argument-mutated', {'case': c, 'before': before[1], 'after': after[1]})
